@@ -703,6 +703,32 @@ def conversion_keeps_every_command(ctx, idx, rule, consequence):
            "an old command can pass through the conversion loop without a converted node being added (under `%s`): %s" % (K.src(skip.ast)[:80] if skip is not None else "some path", consequence))
 
 
+def _yacc_per_instance(idx, pcls, rule):
+    """True when every Parser builds its own PLY parser: `self.<attr> = yacc.yacc(module=self, ...)` is a top-level statement of
+    __init__ (executed on every construction, kept on the instance).  Otherwise (line, reason)."""
+    init = pcls.methods.get("__init__")
+    builds = []
+    for nm, m in pcls.methods.items():
+        node0 = getattr(m, "node_orig", None) or m.node
+        for c in ast.walk(node0):
+            if isinstance(c, ast.Call) and (idx.qualname(m.module, c.func, m) or K.src(c.func)).endswith("yacc.yacc"):
+                builds.append((m, node0, c))
+    if not builds or init is None:
+        raise AnalysisError("%s: no yacc.yacc(...) call found in class Parser; where the PLY parser is built is outside this rule" % rule)
+    for m, node0, c in builds:
+        if m is not init:
+            return (c.lineno, "the PLY parser is built in %s, not in the constructor" % m.name)
+        sn = K.self_name(m)
+        top = [st for st in node0.body if isinstance(st, ast.Assign) and st.value is c and len(st.targets) == 1 and isinstance(st.targets[0], ast.Attribute)
+               and isinstance(st.targets[0].value, ast.Name) and st.targets[0].value.id == sn]
+        if not top:
+            return (c.lineno, "the PLY parser is built once and shared (`%s` is not an unconditional `self.<attr> = yacc.yacc(module=self)` of the constructor)" % K.src(c)[:40])
+        modkw = next((k.value for k in c.keywords if k.arg == "module"), None)
+        if not (isinstance(modkw, ast.Name) and modkw.id == sn):
+            return (c.lineno, "the PLY parser is built with `module=%s`, not with the new object itself" % (K.src(modkw) if modkw is not None else "<default>"))
+    return True
+
+
 def parser_state(ctx, idx, rule):
     """Per-parse state written by grammar actions (e.g. the EEMS 2.0 flag) must not survive into the next parse."""
     pmod = idx.module_of("mpilot.parser.parser")
@@ -744,8 +770,11 @@ def parser_state(ctx, idx, rule):
         con = "%s::Parser::per-parse-state(%s)" % (pmod.rel, attr)
         if reset_ok:
             ctx.hold(rule, con, pmod.rel, parse.node.lineno, "`%s` is reset at the start of every parse" % attr)
+        elif fresh_everywhere and n_sites and _yacc_per_instance(idx, pcls, rule) is not True:
+            why_ = _yacc_per_instance(idx, pcls, rule)
+            ctx.violate(rule, con, pmod.rel, why_[0], "`%s` is set by the grammar action %s and never reset by parse(); every load builds a fresh Parser, but %s: PLY binds the grammar actions to the object given as `module=`, so the actions of every later Parser write and read the FIRST object's `%s` - after one EEMS 2.0 file every later file, from a new Parser too, is treated as EEMS 2.0 and loses its NewFieldName/OutFileName arguments" % (attr, m.name, why_[1], attr))
         elif fresh_everywhere and n_sites:
-            ctx.hold(rule, con, pmod.rel, m.node.lineno, "`%s` is never reset by parse(), but every load builds a fresh Parser (%d call site(s))" % (attr, n_sites))
+            ctx.hold(rule, con, pmod.rel, m.node.lineno, "`%s` is never reset by parse(), but every load builds a fresh Parser (%d call site(s)) whose grammar actions are bound to itself" % (attr, n_sites))
         elif _reset_by_every_reusing_caller(idx, pcls, attr):
             ctx.hold(rule, con, pmod.rel, m.node.lineno, "`%s` is put back by every caller that reuses a parser object, on every path to its parse call" % attr)
         else:
